@@ -319,6 +319,21 @@ def run_flow(*steps, on_error=None):
     return res, dp.descriptor
 
 
+def preuse(steps, make_source):
+    """the step OBJECTS are used once in a throwaway Flow over a fresh copy of the input before the run that is judged: a
+    configured step is a description of work, nothing of an earlier use may stick to it (DESIGN.md: step objects - unlike
+    whole Flows - are re-usable on the current tree; one-shot steps such as stream/dump_to_zip/join are never passed here)"""
+    import contextlib
+    import io
+    from dataflows import Flow
+    try:
+        with contextlib.redirect_stdout(io.StringIO()), contextlib.redirect_stderr(io.StringIO()):
+            Flow(make_source(), *steps).process()
+    except Exception:
+        pass
+    return steps
+
+
 def tuple_source(resources):
     """resources: list of (name, fields[(name,type[,extra])], rows[list of dict][, primary key[, schema extras]]) -> a load((descriptor, iterators)) step."""
     from dataflows import load
